@@ -34,29 +34,29 @@ func Assert(c bool, name string) {
 		failed(name)
 	}
 }
-func Reach(name string)           { reached(name) }
-func Fail(name string)            { failed(name) }
-func And(a, b bool) bool          { return a && b }
-func Or(a, b bool) bool           { return a || b }
-func Not(a bool) bool             { return !a }
-func Implies(a, b bool) bool      { return !a || b }
-func Symbolic() bool              { return false }
-func StrEq(a, b string) bool      { return a == b }
-func BytesEq(a, b []byte) bool    { return string(a) == string(b) }
-func Note(s string)               {}
+func Reach(name string)             { reached(name) }
+func Fail(name string)              { failed(name) }
+func And(a, b bool) bool            { return a && b }
+func Or(a, b bool) bool             { return a || b }
+func Not(a bool) bool               { return !a }
+func Implies(a, b bool) bool        { return !a || b }
+func Symbolic() bool                { return false }
+func StrEq(a, b string) bool        { return a == b }
+func BytesEq(a, b []byte) bool      { return string(a) == string(b) }
+func Note(s string)                 {}
 func Label(l string, v interface{}) {}
 
 // ---- environment (ORM tables, bank, context). Symbolically these are models with an
 // arbitrary initial content; natively they are served by the module's replay support
 // through the Native hook.
 
-func OrmStore(name string) interface{}   { return native().Store(name) }
-func BankKeeper() interface{}            { return native().Bank() }
-func ModuleAddr(name string) []byte      { return native().ModuleAddr(name) }
-func IsModuleAccount(addr []byte) bool   { return native().IsModuleAccount(addr) }
-func OrmInvariant(table string, f interface{}) { native().Invariant(table, f) }
-func OrmBegin()                          { native().Begin() }
-func OrmRollbackIf(c bool)               { native().RollbackIf(c) }
+func OrmStore(name string) interface{}                  { return native().Store(name) }
+func BankKeeper() interface{}                           { return native().Bank() }
+func ModuleAddr(name string) []byte                     { return native().ModuleAddr(name) }
+func IsModuleAccount(addr []byte) bool                  { return native().IsModuleAccount(addr) }
+func OrmInvariant(table string, f interface{})          { native().Invariant(table, f) }
+func OrmBegin()                                         { native().Begin() }
+func OrmRollbackIf(c bool)                              { native().RollbackIf(c) }
 func OrmExists0(table string, keys ...interface{}) bool { return native().Exists(0, table, keys) }
 func OrmExists1(table string, keys ...interface{}) bool { return native().Exists(1, table, keys) }
 func OrmRow0(table string, dst interface{}, keys ...interface{}) bool {
@@ -187,24 +187,28 @@ func MergeCallee(fullName string) {}
 
 // ---- recording stubs (symbolic runs; natively provided by the module's replay support)
 
-func Recorder(name string) interface{}                        { return native3().Recorder(name) }
-func CallCount(name string) int                               { return native3().CallCount(name) }
-func CallIndex(name string, k int) int                        { return native3().CallIndex(name, k) }
-func CallArg(call, arg int, dst interface{})                  { native3().CallArg(call, arg, dst) }
-func SameObject(a, b interface{}) bool                        { return native3().SameObject(a, b) }
+func Recorder(name string) interface{}       { return native3().Recorder(name) }
+func CallCount(name string) int              { return native3().CallCount(name) }
+func CallIndex(name string, k int) int       { return native3().CallIndex(name, k) }
+func CallArg(call, arg int, dst interface{}) { native3().CallArg(call, arg, dst) }
+func SameObject(a, b interface{}) bool       { return native3().SameObject(a, b) }
 
 // CallRet copies result number ret of recorded call number call into dst.
 func CallRet(call, ret int, dst interface{}) {
-	if s, ok := Native.(interface{ CallRet(call, ret int, dst interface{}) }); ok {
+	if s, ok := Native.(interface {
+		CallRet(call, ret int, dst interface{})
+	}); ok {
 		s.CallRet(call, ret, dst)
 		return
 	}
 	panic("zzverif: native stub support not installed")
 }
-func SerializedExactly(data []byte, m interface{}) bool       { return native3().SerializedExactly(data, m) }
-func SetUnexportedField(ptr interface{}, f string, v interface{}) { native3().SetUnexportedField(ptr, f, v) }
-func DeepSnapshot(v interface{}) interface{}                  { return native3().DeepSnapshot(v) }
-func DeepEqual(a, b interface{}) bool                         { return native3().DeepEqual(a, b) }
+func SerializedExactly(data []byte, m interface{}) bool { return native3().SerializedExactly(data, m) }
+func SetUnexportedField(ptr interface{}, f string, v interface{}) {
+	native3().SetUnexportedField(ptr, f, v)
+}
+func DeepSnapshot(v interface{}) interface{} { return native3().DeepSnapshot(v) }
+func DeepEqual(a, b interface{}) bool        { return native3().DeepEqual(a, b) }
 
 type StubSupport interface {
 	Recorder(name string) interface{}
@@ -274,7 +278,7 @@ func Concretize(v, lo, hi int) int { return v }
 
 // EffectsSnapshot keeps the effects (table writes, bank writes, events) of the execution
 // since OrmBegin; SameEffects compares the effects since OrmBegin with the kept ones.
-func EffectsSnapshot() { nativeDet().EffectsSnapshot() }
+func EffectsSnapshot()  { nativeDet().EffectsSnapshot() }
 func SameEffects() bool { return nativeDet().SameEffects() }
 
 // ProcessState marks the memory reachable from v (the keeper) as per-process state.
